@@ -49,6 +49,25 @@ def pure(e):
     return False
 
 
+def binds_continue(s):
+    """a continue statement that belongs to the loop whose body is s (not to a loop nested in it): the
+    for -> while rewrite would then skip the update clause, so it is not applied"""
+    if not isinstance(s, tuple) or not s:
+        return False
+    k = s[0]
+    if k == 'continue':
+        return True
+    if k in ('while', 'do', 'for'):
+        return False
+    if k == 'block':
+        return any(binds_continue(x) for x in s[1])
+    if k == 'if':
+        return binds_continue(s[2]) or (s[3] is not None and binds_continue(s[3]))
+    if k == 'switch':
+        return any(binds_continue(x) for _, b in s[2] for x in b) or (s[3] is not None and any(binds_continue(x) for x in s[3]))
+    return False
+
+
 class Rewriter:
     def __init__(self, rng, p=0.5):
         self.rng = rng
@@ -117,7 +136,7 @@ class Rewriter:
             return ('do', self.stmt(s[1]), self.expr(s[2]))
         if k == 'for':
             body = self.stmt(s[4])
-            if s[1] is not None and s[2] is not None and s[3] is not None and rng.random() < self.p:
+            if s[1] is not None and s[2] is not None and s[3] is not None and not binds_continue(body) and rng.random() < self.p:
                 self.applied.append('for -> while')
                 inner = body[1] if body[0] == 'block' else [body]
                 return ('block', [('expr', s[1]), ('while', self.expr(s[2]), ('block', list(inner) + [('expr', s[3])]))])
